@@ -5,12 +5,15 @@
 // IN tokens (a script; everything needed to re-run the case):
 //
 //	k=<label>                     generator label (ignored by the model)
+//	@<k>                          the following H/D/W tokens belong to stream k of the session (default 0);
+//	                              all streams of a case are created by ONE StreamProcessorFactory value
 //	H<d><es>:<n>:<v>:<n>:<v>...   HEADERS on direction d (C = client-to-server, S = server-to-client), hex name/value pairs
 //	D<d><es>:<hex>                DATA frame on direction d
 //	W<d>:<flag>:<payloadhex>      intended gRPC message list of direction d (the spec side of the oracle)
 //	T<e>:<payloadhex>:<plain|!>   decompression table for the input payloads (e: g gzip, f deflate, s snappy), checked here
 //
-// OUT tokens: for every executed op a "|" followed by the calls it caused, in order:
+// OUT tokens: for every executed op a "|" (stream 0) or "|<k>" followed by the calls it caused, in order
+// (a call observed on another stream j than the op's is prefixed "!<j>~"):
 //
 //	p<d>h<es>:ok|diff   processor d was shown Header (fields equal / not equal to the ones fed)
 //	s<d>h<es>:ok|diff   sink d received Header
@@ -49,11 +52,21 @@ import (
 
 // ---------------------------------------------------------------- recording
 
+// rec is the one event log of a case; cur is the stream whose op is being executed.
 type rec struct {
 	evs []string
-	fed map[byte][]hpack.HeaderField // last header list fed per direction
-	// bytes that reached each sink, for the independent re-parse
-	sunk map[byte][]byte
+	cur int
+}
+
+// stream is everything that belongs to one HTTP/2 stream of the session.
+type stream struct {
+	id      int
+	r       *rec
+	procs   map[byte]h2.Processor
+	fed     map[byte][]hpack.HeaderField   // last header list fed per direction
+	hdrs    map[byte][][]hpack.HeaderField // all header lists fed per direction
+	sunk    map[byte][]byte                // bytes that reached each sink, for the independent re-parse
+	stopped bool
 }
 
 func b2i(b bool) int {
@@ -63,8 +76,17 @@ func b2i(b bool) int {
 	return 0
 }
 
-func (r *rec) sameHeaders(d byte, hs []hpack.HeaderField) string {
-	want := r.fed[d]
+// add logs a call seen at a recorder of stream st; a call that shows up while another
+// stream's op is executing is marked (cross-stream interference).
+func (st *stream) add(tok string) {
+	if st.id != st.r.cur {
+		tok = fmt.Sprintf("!%d~%s", st.id, tok)
+	}
+	st.r.evs = append(st.r.evs, tok)
+}
+
+func (st *stream) sameHeaders(d byte, hs []hpack.HeaderField) string {
+	want := st.fed[d]
 	if len(want) != len(hs) {
 		return "diff"
 	}
@@ -77,42 +99,42 @@ func (r *rec) sameHeaders(d byte, hs []hpack.HeaderField) string {
 }
 
 type sink struct {
-	r *rec
-	d byte
+	st *stream
+	d  byte
 }
 
 func (s *sink) Data(data []byte, es bool) error {
-	s.r.evs = append(s.r.evs, fmt.Sprintf("s%cd%d:%s", s.d, b2i(es), hx.Hex(data)))
-	s.r.sunk[s.d] = append(s.r.sunk[s.d], data...)
+	s.st.add(fmt.Sprintf("s%cd%d:%s", s.d, b2i(es), hx.Hex(data)))
+	s.st.sunk[s.d] = append(s.st.sunk[s.d], data...)
 	return nil
 }
 func (s *sink) Header(hs []hpack.HeaderField, es bool, _ http2.PriorityParam) error {
-	s.r.evs = append(s.r.evs, fmt.Sprintf("s%ch%d:%s", s.d, b2i(es), s.r.sameHeaders(s.d, hs)))
+	s.st.add(fmt.Sprintf("s%ch%d:%s", s.d, b2i(es), s.st.sameHeaders(s.d, hs)))
 	return nil
 }
 func (s *sink) Priority(http2.PriorityParam) error {
-	s.r.evs = append(s.r.evs, fmt.Sprintf("s%co:prio", s.d))
+	s.st.add(fmt.Sprintf("s%co:prio", s.d))
 	return nil
 }
 func (s *sink) RSTStream(http2.ErrCode) error {
-	s.r.evs = append(s.r.evs, fmt.Sprintf("s%co:rst", s.d))
+	s.st.add(fmt.Sprintf("s%co:rst", s.d))
 	return nil
 }
 func (s *sink) PushPromise(uint32, []hpack.HeaderField) error {
-	s.r.evs = append(s.r.evs, fmt.Sprintf("s%co:push", s.d))
+	s.st.add(fmt.Sprintf("s%co:push", s.d))
 	return nil
 }
 
 // proc is the pass-through gRPC processor: records what it is shown and
 // forwards it unchanged to the emitter it was given.
 type proc struct {
-	r    *rec
+	st   *stream
 	d    byte
 	dest mgrpc.Processor
 }
 
 func (p *proc) Header(hs []hpack.HeaderField, es bool, prio http2.PriorityParam) error {
-	p.r.evs = append(p.r.evs, fmt.Sprintf("p%ch%d:%s", p.d, b2i(es), p.r.sameHeaders(p.d, hs)))
+	p.st.add(fmt.Sprintf("p%ch%d:%s", p.d, b2i(es), p.st.sameHeaders(p.d, hs)))
 	return p.dest.Header(hs, es, prio)
 }
 
@@ -121,7 +143,7 @@ func (p *proc) Message(data []byte, es bool) error {
 	if data != nil {
 		tok = hx.Hex(data)
 	}
-	p.r.evs = append(p.r.evs, fmt.Sprintf("p%cm%d:%s", p.d, b2i(es), tok))
+	p.st.add(fmt.Sprintf("p%cm%d:%s", p.d, b2i(es), tok))
 	return p.dest.Message(data, es)
 }
 
@@ -252,27 +274,49 @@ func errKind(err error) string {
 }
 
 func runCase(in []string) (out []string) {
-	r := &rec{fed: map[byte][]hpack.HeaderField{}, sunk: map[byte][]byte{}}
-	u, _ := url.Parse("https://example.com/svc/Method")
+	r := &rec{}
+	// ONE factory value for the whole case; every stream of the session is created by it,
+	// as h2 does for every stream of a connection (h2.go: streamProcessors.create).
+	var creating *stream
 	f := mgrpc.AsStreamProcessorFactory(func(_ *url.URL, server, client mgrpc.Processor) (mgrpc.Processor, mgrpc.Processor) {
-		return &proc{r, 'C', server}, &proc{r, 'S', client}
+		return &proc{creating, 'C', server}, &proc{creating, 'S', client}
 	})
-	cToS, sToC := f(u, h2.VerifNewProcessorsC11(&sink{r, 'C'}, &sink{r, 'S'}))
-	procs := map[byte]h2.Processor{'C': cToS, 'S': sToC}
-	hdrs := map[byte][][]hpack.HeaderField{}
+	streams := map[int]*stream{}
+	var order []int
+	get := func(k int) *stream {
+		if st, ok := streams[k]; ok {
+			return st
+		}
+		st := &stream{id: k, r: r, fed: map[byte][]hpack.HeaderField{}, hdrs: map[byte][][]hpack.HeaderField{}, sunk: map[byte][]byte{}}
+		u, _ := url.Parse(fmt.Sprintf("https://example.com/svc/Method%d", k))
+		creating = st
+		cToS, sToC := f(u, h2.VerifNewProcessorsC11(&sink{st, 'C'}, &sink{st, 'S'}))
+		st.procs = map[byte]h2.Processor{'C': cToS, 'S': sToC}
+		streams[k] = st
+		order = append(order, k)
+		return st
+	}
 	badTable := false
-	stopped := false
+	cur := 0
 
-	step := func(fn func() error) {
+	step := func(st *stream, fn func() error) {
 		defer func() {
 			if x := recover(); x != nil {
 				r.evs = append(r.evs, "PANIC")
-				stopped = true
+				st.stopped = true
 			}
 		}()
 		if err := fn(); err != nil {
 			r.evs = append(r.evs, "e:"+errKind(err))
-			stopped = true
+			st.stopped = true
+		}
+	}
+	mark := func(k int) {
+		r.cur = k
+		if k == 0 {
+			r.evs = append(r.evs, "|")
+		} else {
+			r.evs = append(r.evs, fmt.Sprintf("|%d", k))
 		}
 	}
 
@@ -281,33 +325,41 @@ func runCase(in []string) (out []string) {
 			continue
 		}
 		switch t[0] {
-		case 'H':
-			d, es, hs, ok := parseHeaderTok(t)
-			if !ok || procs[d] == nil {
+		case '@':
+			k, err := strconv.Atoi(t[1:])
+			if err != nil || k < 0 || k > 1000 {
 				return []string{"BADCASE"}
 			}
-			if stopped {
+			cur = k
+		case 'H':
+			d, es, hs, ok := parseHeaderTok(t)
+			if !ok || (d != 'C' && d != 'S') {
+				return []string{"BADCASE"}
+			}
+			st := get(cur)
+			if st.stopped {
 				continue
 			}
-			r.fed[d] = hs
-			hdrs[d] = append(hdrs[d], hs)
-			r.evs = append(r.evs, "|")
-			step(func() error { return procs[d].Header(hs, es, http2.PriorityParam{}) })
+			st.fed[d] = hs
+			st.hdrs[d] = append(st.hdrs[d], hs)
+			mark(cur)
+			step(st, func() error { return st.procs[d].Header(hs, es, http2.PriorityParam{}) })
 		case 'D':
-			if len(t) < 4 || procs[t[1]] == nil {
+			if len(t) < 4 || (t[1] != 'C' && t[1] != 'S') {
 				return []string{"BADCASE"}
 			}
 			b, err := hx.UnHex(t[4:])
 			if err != nil {
 				return []string{"BADCASE"}
 			}
-			if stopped {
+			st := get(cur)
+			if st.stopped {
 				continue
 			}
 			d, es := t[1], t[2] == '1'
-			r.evs = append(r.evs, "|")
+			mark(cur)
 			// the relay hands the adapter a slice of the frame it owns; give it a private copy
-			step(func() error { return procs[d].Data(append([]byte(nil), b...), es) })
+			step(st, func() error { return st.procs[d].Data(append([]byte(nil), b...), es) })
 		case 'T':
 			p := strings.Split(t, ":")
 			if len(p) != 3 || len(p[0]) != 2 {
@@ -330,22 +382,25 @@ func runCase(in []string) (out []string) {
 	out = r.evs
 	out = append(out, "#")
 	seen := map[string]bool{}
-	for _, d := range []byte{'C', 'S'} {
-		e := encOf(hdrs[d])
-		if e == 'i' {
-			continue
-		}
-		for _, pl := range flaggedPayloads(r.sunk[d]) {
-			key := string(e) + string(pl)
-			if seen[key] {
+	for _, k := range order {
+		st := streams[k]
+		for _, d := range []byte{'C', 'S'} {
+			e := encOf(st.hdrs[d])
+			if e == 'i' {
 				continue
 			}
-			seen[key] = true
-			tok := "!"
-			if plain, ok := decodeWith(e, pl); ok {
-				tok = hx.Hex(plain)
+			for _, pl := range flaggedPayloads(st.sunk[d]) {
+				key := string(e) + string(pl)
+				if seen[key] {
+					continue
+				}
+				seen[key] = true
+				tok := "!"
+				if plain, ok := decodeWith(e, pl); ok {
+					tok = hx.Hex(plain)
+				}
+				out = append(out, fmt.Sprintf("t%c:%s:%s", e, hx.Hex(pl), tok))
 			}
-			out = append(out, fmt.Sprintf("t%c:%s:%s", e, hx.Hex(pl), tok))
 		}
 	}
 	if badTable {
@@ -575,8 +630,11 @@ func main() {
 		cfg.Count(fmt.Sprintf("exh_wire_len=%d", nb))
 	}
 	for nb := 0; nb <= L; nb++ {
-		for _, lens := range compositions(nb) {
-			for _, place := range places {
+		for ci, lens := range compositions(nb) {
+			for pi, place := range places {
+				if !cfg.Thorough() && nb == 14 && pi != ci%3 {
+					continue // quick: at 14 bytes one rotating placement per message list
+				}
 				ctr++
 				d := dirs[ctr%2]
 				e := encs[ctr%5]
@@ -810,6 +868,143 @@ func main() {
 			}
 		}
 		emit("bidi", toks)
+	}
+
+	// ---- 4b. sessions: 2-4 streams created by ONE factory value, gRPC and non-gRPC in every
+	// order, own encodings and directions, frames of different streams interleaved.  Each stream
+	// is judged by the same per-stream oracle.
+	nonCT := []string{"-", "application/json", "application/grpc+proto", "text/plain", "application/grpc-web+proto"}
+	type sstream struct {
+		spec []string // W/T tokens
+		ops  []string // H/D tokens in order
+	}
+	mkStream := func(r *hx.RNG, grpc bool, d byte, e byte, variant int) sstream {
+		var st sstream
+		if grpc {
+			var ms []msg
+			for i := r.Range(0, 3); i > 0; i-- {
+				plain := r.Bytes(sizes[r.Intn(10)])
+				if r.Bool() {
+					ee := e
+					if ee == '-' {
+						ee = 'i'
+					}
+					ms = append(ms, msg{true, encodeWith(ee, r.Intn(4), plain)})
+				} else {
+					ms = append(ms, msg{false, plain})
+				}
+			}
+			w := wire(ms)
+			var cuts []int
+			for c := 1; c < len(w); c++ {
+				if r.Chance(1, 4) {
+					cuts = append(cuts, c)
+				}
+			}
+			st.spec = specToks(d, e, ms)
+			st.ops = append(startHeaders(d, "application/grpc", e, encs[r.Intn(5)]), framesFor(d, w, cuts, places[r.Intn(3)])...)
+			return st
+		}
+		ct := nonCT[variant%len(nonCT)]
+		var raw []byte
+		switch r.Intn(3) {
+		case 0:
+			raw = wire([]msg{{false, r.Bytes(r.Intn(9))}, {r.Bool(), r.Bytes(r.Intn(4))}}) // looks like gRPC
+		case 1:
+			raw = []byte(`{"json":"body","n":12345}`)
+		default:
+			raw = r.Bytes(r.Range(1, 40))
+		}
+		var cuts []int
+		for c := 1; c < len(raw); c++ {
+			if r.Chance(1, 5) {
+				cuts = append(cuts, c)
+			}
+		}
+		st.ops = append(startHeaders(d, ct, encs[r.Intn(5)], '-'), framesFor(d, raw, cuts, places[r.Intn(3)])...)
+		return st
+	}
+	// weave: mode 0 stream after stream, 1 round-robin, 2 random
+	weave := func(r *hx.RNG, sts []sstream, mode int) []string {
+		var toks []string
+		for k, st := range sts {
+			if len(st.spec) > 0 {
+				toks = append(toks, fmt.Sprintf("@%d", k))
+				toks = append(toks, st.spec...)
+			}
+		}
+		pos := make([]int, len(sts))
+		last := -1
+		emitOp := func(k int) {
+			if k != last {
+				toks = append(toks, fmt.Sprintf("@%d", k))
+				last = k
+			}
+			toks = append(toks, sts[k].ops[pos[k]])
+			pos[k]++
+		}
+		remaining := func() []int {
+			var ks []int
+			for k := range sts {
+				if pos[k] < len(sts[k].ops) {
+					ks = append(ks, k)
+				}
+			}
+			return ks
+		}
+		switch mode {
+		case 0:
+			for k := range sts {
+				for pos[k] < len(sts[k].ops) {
+					emitOp(k)
+				}
+			}
+		case 1:
+			for len(remaining()) > 0 {
+				for _, k := range remaining() {
+					emitOp(k)
+				}
+			}
+		default:
+			for {
+				ks := remaining()
+				if len(ks) == 0 {
+					break
+				}
+				emitOp(ks[r.Intn(len(ks))])
+			}
+		}
+		return toks
+	}
+	// systematic: every kind sequence over {gRPC, non-gRPC} for 2 and 3 streams x weave mode x direction pattern
+	for ns := 2; ns <= 3; ns++ {
+		for kinds := 0; kinds < 1<<ns; kinds++ {
+			for mode := 0; mode < 3; mode++ {
+				for dp := 0; dp < 4; dp++ {
+					r := rng.Fork()
+					sts := make([]sstream, ns)
+					for k := range sts {
+						sts[k] = mkStream(r, kinds>>k&1 == 1, dirs[(dp>>(k%2))&1], encs[(kinds+k+dp)%5], k+dp+mode)
+					}
+					emit("sess", weave(r, sts, mode))
+					cfg.Count(fmt.Sprintf("sess_streams=%d", ns))
+				}
+			}
+		}
+	}
+	nsr := 500
+	if cfg.Thorough() {
+		nsr = 6000
+	}
+	for k := 0; k < nsr; k++ {
+		r := rng.Fork()
+		ns := r.Range(2, 4)
+		sts := make([]sstream, ns)
+		for i := range sts {
+			sts[i] = mkStream(r, r.Chance(3, 5), dirs[r.Intn(2)], encs[r.Intn(5)], r.Intn(5))
+		}
+		emit("sess", weave(r, sts, r.Intn(3)))
+		cfg.Count(fmt.Sprintf("sess_streams=%d", ns))
 	}
 
 	// ---- 5. streams that are not gRPC (Content-Type detection): arbitrary DATA must pass untouched
